@@ -49,7 +49,7 @@ def propagate_for2  : List Nat → (Nat → Bool) → List Nat → ((Nat → Boo
     | (node_is_lin, queue) =>
       propagate_for2 rest__ node_is_lin queue
 
-/-- `while len(queue) > 0:` of `propagate_lin_cc_judgements` (fuel = maximal number of iterations; `none` = out of fuel) -/
+/-- `while len(queue) > 0:` of `propagate_lin_cc_judgements` (fuel = maximal number of iterations) -/
 def propagate_while1 (E : List (Nat × Nat)) : Nat → List Nat → (Nat → Bool) → Option (List Nat × (Nat → Bool))
   | 0, _, _ => none
   | fuel + 1, queue, node_is_lin =>
